@@ -30,6 +30,14 @@ def check_calc(mod, tier, seed, extra_modules=()):
             print('forbidden tokens in Lean sources:', hits)
             rep.finish()
             return 2
+        for part in getattr(g, 'parts', []):
+            ppath = os.path.join(LEAN, 'NdeVerif', 'Gen', f'{part.pid}.lean')
+            part.write(ppath)
+        for part in getattr(g, 'parts', []):
+            ok2, hits2 = kernel_phase(rep, f'NdeVerif.Gen.{part.pid}', part.ns, [o.name for o in part.obligations], tag=part.pid)
+            ok = ok and ok2
+            if part.failures:
+                rep.coverage.setdefault('certificates_not_found', []).extend(part.failures)
         for module, ns, thms in getattr(mod, 'STATIC', []):
             ok2, _ = kernel_phase(rep, module, ns, thms, tag=mod.PID + '_static')
             ok = ok and ok2
@@ -41,12 +49,13 @@ def check_calc(mod, tier, seed, extra_modules=()):
             programs=len(stats), traces_validated_against_impl=sum(s.get('replays', 0) for s in stats.values()),
             worst_replay_rel_err=max([s.get('worst_rel_err', 0) for s in stats.values()] or [0]),
             evaluations=sum(s.get('replays', 0) for s in stats.values()),
-            distinct_nontrivial=len({o.statement for o in g.obligations}),
+            distinct_nontrivial=len({o.statement for o in g.obligations} | {o.statement for part in getattr(g, 'parts', []) for o in part.obligations}),
             rule='one scenario per configuration of the traced code (all enumerated); an obligation is one kernel-checked '
                  'theorem, distinct by statement; every trace is replayed numerically against the real code on random '
                  'float64 inputs/nets for each seed and row count',
             generated_file=os.path.relpath(path, ROOT))
-        rep.samples = [dict(theorem=o.name, statement=o.statement[:400], meaning=o.what) for o in g.obligations[:: max(1, len(g.obligations) // 8)]]
+        allobl = g.obligations + [o for part in getattr(g, 'parts', []) for o in part.obligations]
+        rep.samples = [dict(theorem=o.name, statement=o.statement[:400], meaning=o.what) for o in allobl[:: max(1, len(allobl) // 10)]]
     rep.assumptions = list(getattr(mod, 'ASSUMPTIONS', []))
     # optional second engine of the property (a hand-written model with its own correspondence)
     extra_failing = []
